@@ -76,7 +76,16 @@ def candidates(plan, deletable_dict_keys=('procs', 'files'), text_keys=('text', 
                 c = copy.deepcopy(plan)
                 _get(c, path)[k] = 1
                 yield c
-            elif isinstance(v, bool) and v and k in ('keep', 'act_mode', 'varying', 'ignores_sigterm'):
+            elif v is not None and k in ('stdin', 'setup_stdin') and not isinstance(v, list):
+                c = copy.deepcopy(plan)
+                _get(c, path)[k] = None
+                yield c
+            elif isinstance(v, dict) and k == 'tree' and v.get('sub'):
+                c = copy.deepcopy(plan)
+                _get(c, path)[k] = v['sub']  # use the referenced program directly
+                yield c
+            elif isinstance(v, bool) and v and k in ('keep', 'act_mode', 'varying', 'ignores_sigterm', 'cd', 'transform',
+                                                      'second_use'):
                 c = copy.deepcopy(plan)
                 _get(c, path)[k] = False
                 yield c
